@@ -49,6 +49,48 @@ def widths_shard(bs, p):
                         found.setdefault("to_bits.rejects-in-range", {"case": case, "key": "to_bits.rejects-in-range",
                             "msg": "to_bits(%d) rejected %d at bitlength %d" % (n, v, b)})
                 stats.case(case, n != b, ("width:n%sb" % ("=" if n == b else "<" if n < b else ">"),) + (("width-as-intlike",) if wrap else ()), sample_cap=3)
+    # widths beyond a machine word (65, 100, 200 ... bits, given explicitly or as the global bitlength): n bits come back, values
+    # up to 2^n - 1 round-trip, and for a value of n+1 or more bits the witness recorded with errors ignored violates a constraint
+    # (an explicit assignment: were every constraint satisfied, the out-of-range value would be provable)
+    if p > (1 << 250):
+        for n in (63, 64, 65, 100, 127, 128, 129, 200, 250):
+            for b in sorted({16, n}):
+                for v in (0, 1, (1 << n) - 1, (1 << (n - 1)) + 5):
+                    ns = env.reset(p, b, 0)
+                    case = {"part": "width", "p": p, "b": b, "n": n, "v": ["pow2", n, v - (1 << n)], "large": True}
+                    try:
+                        bits = ns.rt.PrivVal(v).to_bits(n)
+                        ns.rt.PrivVal(v).assert_positive(n)
+                    except (AssertionError, ValueError) as e:
+                        found.setdefault("large.rejects-in-range", {"case": case, "key": "large.rejects-in-range", "msg": "to_bits(%d) / assert_positive(%d) rejected a %d-bit value at bitlength %d: %s" % (n, n, v.bit_length(), b, e)})
+                        continue
+                    if len(bits) != n or sum(bb.lc.value << i for i, bb in enumerate(bits)) != v or r1cs.evaluate(ns.rec.snapshot()):
+                        found.setdefault("large.roundtrip", {"case": case, "key": "large.roundtrip", "msg": "to_bits(%d) of a %d-bit value at bitlength %d returned %d bits (or not its bits, or an unsatisfied circuit)" % (n, v.bit_length(), b, len(bits))})
+                    stats.case(case, True, ("width:large",), sample_cap=2)
+                for v in (1 << n, (1 << n) + 1, (1 << (64 * ((n + 63) // 64))) - 1, (1 << (n + 1)) + 3):
+                    if v >= p or v < (1 << n):
+                        continue
+                    for opn in ("to_bits", "assert_positive"):
+                        ns = env.reset(p, b, 0)
+                        case = {"part": "width", "p": p, "b": b, "n": n, "v": ["pow2", n, v - (1 << n)], "large": True, "op": opn}
+                        x = ns.rt.PrivVal(v)
+                        try:
+                            getattr(x, opn)(n)
+                            found.setdefault("large.accepts", {"case": case, "key": "large.accepts", "msg": "%s(%d) accepted a %d-bit value at bitlength %d" % (opn, n, v.bit_length(), b)})
+                            continue
+                        except (AssertionError, ValueError):
+                            pass
+                        ns = env.reset(p, b, 0)
+                        x = ns.rt.PrivVal(v)
+                        ns.rt.ignore_errors(True)
+                        try:
+                            getattr(x, opn)(n)
+                        finally:
+                            ns.rt.ignore_errors(False)
+                        if not r1cs.evaluate(ns.rec.snapshot()):
+                            found.setdefault("large.not-enforced", {"case": case, "key": "large.not-enforced",
+                                "msg": "%s(%d) at bitlength %d: with errors ignored a %d-bit value leaves every emitted constraint satisfied - the width enforced in the circuit is not the %d bits requested" % (opn, n, b, v.bit_length(), n)})
+                        stats.case(case, True, ("width:large-out-of-range",), sample_cap=2)
     # the requested width is the width of the decomposition in EVERY mode: with errors ignored, under a false guard and under a
     # true guard the call emits as many wires and constraints as for a value that fits (a fallback path that decomposes at
     # the global bitlength instead of the requested width would show here, and nowhere in the values)
@@ -212,7 +254,25 @@ def break_value(draw, s, v):
 
 
 def pack_case(case):
-    """returns None or message"""
+    """returns None or message. Whatever the packers do - accept, reject, run with errors ignored - the settings the program made
+    (runtime.bitlength, the fixed-point resolution) are still in force afterwards."""
+    msg = _pack_case(case)
+    ns = env.bind()
+    b = case["b"]
+    if msg is None and case["secret"] is True:
+        # a field wider than the configured bitlength, handed secret bits that encode a number outside it: rejected (today also
+        # for numbers inside it - comparisons work at the global bitlength), and the rejection leaves the settings alone
+        wide = ns.pk.PackIntMod((1 << (b + 3)) - 5)
+        try:
+            wide.unpack([ns.bo.PrivValBool(1) for _ in range(b + 3)], 0)
+        except (AssertionError, ValueError):
+            pass
+    if msg is None and (ns.rt.bitlength != b or ns.fx.resolution != 0):
+        return "after the packer calls runtime.bitlength is %r and the fixed-point resolution %r; the program had set %r and 0" % (ns.rt.bitlength, ns.fx.resolution, b)
+    return msg
+
+
+def _pack_case(case):
     s, v, secret, off, b, p = case["schema"], case["value"], case["secret"], case["offset"], case["b"], case["p"]
     ns = env.reset(p, b, 0)
     pkr = build(ns, s)
@@ -314,7 +374,7 @@ def replay(case):
         return pack_case(case)
     if part == "enforce":
         return c03.replay(case)
-    st_ = widths_shard([case["b"]], case["p"])
+    st_ = widths_shard([] if case.get("large") else [case["b"]], case["p"])      # (the large-width part does not depend on bs)
     return "; ".join(v["msg"] for v in st_.violations) or None
 
 
